@@ -13,6 +13,7 @@ package main
 import (
 	"fmt"
 	"go/types"
+	"path/filepath"
 
 	"golang.org/x/tools/go/ssa"
 )
@@ -92,7 +93,10 @@ func (in *Interp) lineLen(s SliceV) *Term {
 func registerIO(P *Program) {
 	r := P.reg
 	r("os.OpenFile", func(in *Interp, caller *frame, fn *ssa.Function, args []Value) Value {
-		name := mustStr(args[0], "os.OpenFile")
+		name, ok := cstr(args[0])
+		if !ok {
+			name = "sym:" + in.ts.Print(args[0].(*Term))
+		}
 		var cell Value = &Opaque{Kind: "os.File", Data: &fileHandle{f: in.fileByName(name)}}
 		return Tuple{Ptr(&cell), Iface{}}
 	})
@@ -106,6 +110,13 @@ func registerIO(P *Program) {
 		h.pos = 0
 		return Tuple{in.ts.BV(64, 0), Iface{}}
 	})
+	r("(*os.File).Write", func(in *Interp, caller *frame, fn *ssa.Function, args []Value) Value {
+		h := handleOf(in, args[0])
+		data := args[1].(SliceV)
+		in.effect("file write " + h.f.name)
+		h.f.lines = append(h.f.lines, &fileLine{content: data, length: in.lineLen(data)})
+		return Tuple{in.lenTerm(data), Iface{}}
+	})
 	r("(*os.File).Close", func(in *Interp, caller *frame, fn *ssa.Function, args []Value) Value {
 		handleOf(in, args[0]).closed = true
 		return Iface{}
@@ -113,6 +124,29 @@ func registerIO(P *Program) {
 	r("os.Remove", func(in *Interp, caller *frame, fn *ssa.Function, args []Value) Value {
 		delete(in.hooks, "file:"+mustStr(args[0], "os.Remove"))
 		return Iface{}
+	})
+	r("path/filepath.Join", func(in *Interp, caller *frame, fn *ssa.Function, args []Value) Value {
+		var parts []string
+		allConc := true
+		for _, e := range args[0].(SliceV).A {
+			s, ok := cstr(e)
+			if !ok {
+				allConc = false
+				break
+			}
+			parts = append(parts, s)
+		}
+		if allConc {
+			return in.ts.Str(filepath.Join(parts...))
+		}
+		var ts []*Term
+		for i, e := range args[0].(SliceV).A {
+			if i > 0 {
+				ts = append(ts, in.ts.Str("/"))
+			}
+			ts = append(ts, e.(*Term))
+		}
+		return in.ts.SConcat(ts...)
 	})
 	r("os.TempDir", func(in *Interp, caller *frame, fn *ssa.Function, args []Value) Value { return in.ts.Str("/tmp") })
 	r("os.RemoveAll", func(in *Interp, caller *frame, fn *ssa.Function, args []Value) Value { return Iface{} })
